@@ -8,6 +8,7 @@ impl Limb {
     /// Panics if `shift` overflows `Limb::BITS`.
     #[inline(always)]
     pub const fn shr(self, shift: u32) -> Self {
+        assert!(shift < Self::BITS, "attempt to shift right with overflow");
         Limb(self.0 >> shift)
     }
 
